@@ -62,6 +62,49 @@ pub fn main() -> ! {
             let r: Vec<Value> = hs.into_iter().map(|h| h.join().unwrap_or(Value::Null)).collect();
             json!({"crcs": r})
         }
+        Some("firstpair") => {
+            // the first thing this process does with the CPR decoder: pair two position reports
+            // (both orders); `pair` = [[parity, yz, xz], [parity, yz, xz]]
+            let g = |i: usize, j: usize| v["pair"][i][j].as_u64().unwrap_or(0) as u32;
+            let a = crate::cprcheck::report(g(0, 0), g(0, 1), g(0, 2));
+            let b = crate::cprcheck::report(g(1, 0), g(1, 1), g(1, 2));
+            let one = |x: &adsb_deku::Altitude, y: &adsb_deku::Altitude| match std::panic::catch_unwind(|| adsb_deku::cpr::get_position((x, y))) {
+                Ok(p) => format!("{p:?}"),
+                Err(_) => "panic".to_string(),
+            };
+            json!({"ab": one(&a, &b), "ba": one(&b, &a)})
+        }
+        Some("firstdecode") => {
+            // as "firstcrc", for any kind of frame: the Debug text (every decoded field) of the
+            // first frames a process decodes, each on its own thread, all released together
+            let n = frames.len();
+            let ready = std::sync::Arc::new(std::sync::atomic::AtomicUsize::new(0));
+            let go = std::sync::Arc::new(std::sync::atomic::AtomicBool::new(false));
+            let hs: Vec<_> = frames
+                .iter()
+                .cloned()
+                .map(|b| {
+                    let (ready, go) = (ready.clone(), go.clone());
+                    std::thread::spawn(move || {
+                        ready.fetch_add(1, std::sync::atomic::Ordering::SeqCst);
+                        while !go.load(std::sync::atomic::Ordering::Acquire) {
+                            std::hint::spin_loop();
+                        }
+                        match b.as_deref().map(Frame::from_bytes) {
+                            Some(Ok(f)) => json!(format!("crc={:06x} {f:?}", f.crc)),
+                            Some(Err(_)) => json!("Err"),
+                            None => Value::Null,
+                        }
+                    })
+                })
+                .collect();
+            while ready.load(std::sync::atomic::Ordering::SeqCst) < n {
+                std::hint::spin_loop();
+            }
+            go.store(true, std::sync::atomic::Ordering::Release);
+            let r: Vec<Value> = hs.into_iter().map(|h| h.join().unwrap_or(Value::Null)).collect();
+            json!({"texts": r})
+        }
         Some("debugdump") => {
             // Debug text (every decoded field) and checksum of each frame, decoded in list order
             let r: Vec<Value> = frames
